@@ -687,7 +687,7 @@ func (c *c04) shadowCase(w *core.Worker, idx int, rng *core.Rng, res *core.CaseR
 			extraB["/cons/mst/e"] = "true"
 		}
 		pa, pb := int32(10+rng.Intn(10)), int32(30+rng.Intn(10))
-		kind := []string{"delete", "orphan", "drop-leaf", "reprio-A-behind-B", "reprio-B-before-A"}[rng.Intn(5)]
+		kind := []string{"delete", "orphan", "drop-leaf", "reprio-A-behind-B", "reprio-B-before-A", "top-two-leave-together"}[rng.Intn(6)]
 		run := c.h.start(rng, res, false, false)
 		script := [][]stepIntent{
 			{{Owner: "oa", Prio: pa, Vals: extraA, Kind: "create"}},
@@ -707,6 +707,12 @@ func (c *c04) shadowCase(w *core.Worker, idx int, rng *core.Rng, res *core.CaseR
 			last = []stepIntent{{Owner: "oa", Prio: pb + 20, Vals: copyMap(extraA), Kind: "reprio"}}
 		case "reprio-B-before-A":
 			last = []stepIntent{{Owner: "ob", Prio: pa - 5, Vals: copyMap(script[1][0].Vals), Kind: "reprio"}}
+		case "top-two-leave-together":
+			// two intents hold the leaf above the shadowed one and give it up in ONE transaction (one is deleted, the other
+			// shrinks): the third, so far invisible value becomes the active one
+			second := int32(pa + 3)
+			script = append(script, []stepIntent{{Owner: "oc", Prio: second, Vals: map[string]string{l.path: good, "/sys/name": "r1"}, Kind: "create"}})
+			last = []stepIntent{{Owner: "oa", Prio: pa, Delete: true, Kind: "delete"}, {Owner: "oc", Prio: second, Vals: map[string]string{"/sys/name": "r1"}, Kind: "shrink"}}
 		}
 		script = append(script, last)
 		ok := true
